@@ -109,7 +109,7 @@ def run(ctx):
 
     # ---------------------------------------------------------------- phase M (+ generators, build) in parallel
     jobs = []
-    W = 4 if q else 8
+    W = 8
     def mc(cfg, **kw):
         return lambda: ctx.tlc_mc(SPEC, "ProviderQueryManager.tla", cfg, workers=kw.pop("workers", W), **kw)
     jobs.append(("mc", mc("MCProviderQueryManager.cfg", timeout=1500, deadlock=False)))
@@ -127,7 +127,7 @@ def run(ctx):
     if os.environ.get("VERIF_X04_SKIP_M"):                # developer switch (mutation self-tests): phase M does not depend on /repo
         jobs = []
     gens = [("GenJoin4.cfg" if q else "GenJoin.cfg", None), ("GenKeys4.cfg" if q else "GenKeys.cfg", None),
-            ("GenMax.cfg", None), ("GenDial.cfg", None), ("GenSim.cfg", (30 if q else 200))]
+            ("GenMax.cfg", None), ("GenDial.cfg", None), ("GenSim.cfg", (20 if q else 200))]
     for cfg, sim in gens:
         jobs.append(("gen", (lambda cfg=cfg, sim=sim: ctx.tlc_gen(SPEC, "GenProviderQueryManager.tla", cfg, timeout=2400,
                                                                  simulate=sim, depth=(240 if sim else None)))))
